@@ -258,6 +258,8 @@ theorem writeOk_tokens (s : Subs) (out : Str) (want : GDoc) (hd : denote s = som
   unfold Driver.SSAD.writeOk
   simp only [hne, Bool.false_eq_true, ↓reduceIte, hd, hb, hs, SRTDoc.decodeLine_utf8, h1, h2, beq_self_eq_true,
     Bool.and_self]
+  -- the driver first asks whether the cue list is outside the representable class (`ssaWriteOutside`): either way
+  split <;> rfl
 
 /-! ## 4. layer by layer -/
 
